@@ -690,7 +690,7 @@ def gen_cases(rng, tier):
                 var, tree = _variant_for(rng, full, tgt[0], 0.85)
                 mk('load', tree, tgt, pcls, pl, var)
         for j, tgt in enumerate(dt_up):
-            if big or j == i % len(dt_up) or pcls == 'code-touch':
+            if big or (j == i % len(dt_up) and (i % 2 == 0 or pcls.startswith('code'))) or pcls == 'code-touch':
                 mk('upgrade', v10, tgt, pcls, pl, 'v10', rng.choice([[None, None, None], [None, None, None], ['k', 'd', 'g']]))
     # dsize and the other columns of the descriptor files
     for tgt0 in dt_load + dt_up:
@@ -707,26 +707,27 @@ def gen_cases(rng, tier):
                     mk('upgrade', v10, (p, 0, c), pcls, pl, 'v10', [None, None, None])
     # B. every field of every file
     for tgt in _positions(full[0]):
-        for pcls, pl in rng.sample(P_GENERAL, 6 if big else 1):
-            var, tree = _variant_for(rng, full, tgt[0])
-            mk('load', tree, tgt, pcls, pl, var)
-    for tgt in _positions(v10[0]):
-        for pcls, pl in rng.sample(P_GENERAL, 4 if big else 1):
+        for pcls, pl in rng.sample(P_GENERAL, 5 if big else 1):
             if big or rng.random() < 0.6:
+                var, tree = _variant_for(rng, full, tgt[0])
+                mk('load', tree, tgt, pcls, pl, var)
+    for tgt in _positions(v10[0]):
+        for pcls, pl in rng.sample(P_GENERAL, 3 if big else 1):
+            if big or rng.random() < 0.35:
                 mk('upgrade', v10, tgt, pcls, pl, 'v10', rng.choice([[None, None, None], ['k', 'd', 'g']]))
     # C. version lines
     for p in sorted(full[0]):
-        vs = P_VERSION if (p == SENSORS or big) else rng.sample(P_VERSION, 2)
+        vs = P_VERSION if (p == SENSORS or big) else rng.sample(P_VERSION, 1)
         for pcls, pl in vs:
             var, tree = _variant_for(rng, full, p)
             mk('load', tree, (p, 'ver'), pcls, pl, var)
     for p in sorted(v10[0]):
-        for pcls, pl in (P_VERSION if big else rng.sample(P_VERSION, 3)):
+        for pcls, pl in (P_VERSION if (big or p == SENSORS) else rng.sample(P_VERSION, 1)):
             mk('upgrade', v10, (p, 'ver'), pcls, pl, 'v10', [None, None, None])
     # D. the name field of the 1.0 descriptor files becomes a folder name during the upgrade
     for tgt0 in dt_up:
         for pcls, pl in P_NAME:
-            if big or rng.random() < 0.7:
+            if big or rng.random() < 0.45:
                 mk('upgrade', v10, (tgt0[0], 0, 0), pcls, pl, 'v10', [None, None, None])
         for pcls, pl in rng.sample(P_NAME, 3):
             mk('upgrade', v10, (tgt0[0], 0, 0), pcls, pl, 'v10', ['k', 'd', 'g'])
@@ -756,7 +757,7 @@ def gen_cases(rng, tier):
                                     'payload': pl, 'variant': 'full+types', 'note': 'several feature types'}})
     # F. several fields at once (malformed stream)
     pos_full, pos_v10 = _positions(full[0]), _positions(v10[0])
-    for _ in range(400 if big else 50):
+    for _ in range(300 if big else 30):
         op = rng.choice(['load', 'load', 'upgrade'])
         base, pos = (full, pos_full) if op == 'load' else (v10, pos_v10)
         files = base[0]
